@@ -1,5 +1,6 @@
 //! vharness — drives the real versatiles code for the TLA+-based checks in /verif.
 //! It never judges: it executes cases and records observations as ndjson; TLC decides.
+mod c12;
 mod c13;
 mod c14;
 mod c15;
@@ -22,6 +23,7 @@ fn main() {
 	let seed = util::seed();
 	let thorough = util::tier_is_thorough();
 	let summary = match (args[1].as_str(), args[2].as_str()) {
+		("cuts", "C12") => c12::run(&args[3], &args[4], thorough),
 		("steps", "C13") => c13::steps(&args[3]),
 		("stress", "C13") => c13::stress(&args[3], &args[4], seed, thorough),
 		("replay", "C14") => c14::replay(&args[3], &args[4]),
